@@ -342,8 +342,8 @@ class Interp:
                 paths.append(Path(list(self.st.pc), "raise", r.exc, self.st))
             except Infeasible:
                 pass
-            except Unsupported as u:
-                paths.append(Path(list(self.st.pc), "unsupported", str(u), self.st))
+            except (Unsupported, NotImplementedError) as u:
+                paths.append(Path(list(self.st.pc), "unsupported", str(u) or type(u).__name__, self.st))
             work.extend(self.st.newwork)
             if len(paths) > max_paths:
                 paths.append(Path([], "unsupported", "path explosion", self.st))
@@ -539,7 +539,7 @@ class Interp:
         if f in self.models:
             return self.models[f](self, list(args), kwargs)
         pm = getattr(f, "_pyvc_model", None)
-        if pm is not None and not self.all_concrete(args, kwargs):
+        if pm is not None and (getattr(f, "_pyvc_always", False) or not self.all_concrete(args, kwargs)):
             return pm(self, list(args), kwargs)
         if isinstance(f, functools.partial):
             return self.call(f.func, list(f.args) + list(args), {**f.keywords, **kwargs})
@@ -1245,6 +1245,15 @@ class Interp:
                 kwargs.update(d)
             else:
                 kwargs[k.arg] = self.ev(k.value, env)
+        if f is builtins.locals and not args:
+            d = {}
+            chain = []
+            x = env
+            while x is not None:
+                chain.append(x); x = x.parent
+            for x in reversed(chain[:1]):
+                d.update(x.vars)
+            return {k: v for k, v in d.items() if not k.startswith("__")}
         # super() without arguments
         if f is builtins.super and not args:
             return SuperProxy(env.lookup("__class__") if env.lookup_opt("__class__") is not None else None, env)
